@@ -530,6 +530,40 @@ pub fn run(_tier: &str) -> Report {
                 Ok(Ok(())) => {}
             }
         }
+        // client error responses: the kind with its own fields survives the wire
+        {
+            use ruma_client_api::error::{ErrorBody, ErrorKind};
+            use ruma_common::api::{EndpointError, OutgoingResponse};
+            let kinds: Vec<(&str, Box<dyn Fn() -> ErrorKind>)> = vec![
+                ("M_NOT_FOUND", Box::new(|| ErrorKind::NotFound)),
+                ("M_UNKNOWN_TOKEN soft_logout", Box::new(|| ErrorKind::UnknownToken { soft_logout: true })),
+                ("M_RESOURCE_LIMIT_EXCEEDED", Box::new(|| ErrorKind::ResourceLimitExceeded { admin_contact: "mailto:a@s.org".to_owned() })),
+                ("M_INCOMPATIBLE_ROOM_VERSION", Box::new(|| ErrorKind::IncompatibleRoomVersion { room_version: ruma_common::RoomVersionId::V9 })),
+                ("M_WRONG_ROOM_KEYS_VERSION 42", Box::new(|| ErrorKind::WrongRoomKeysVersion { current_version: Some("42".to_owned()) })),
+                ("M_WRONG_ROOM_KEYS_VERSION none", Box::new(|| ErrorKind::WrongRoomKeysVersion { current_version: None })),
+                ("M_BAD_STATUS 502 body", Box::new(|| ErrorKind::BadStatus { status: Some(http::StatusCode::BAD_GATEWAY), body: Some("upstream".to_owned()) })),
+                ("M_BAD_STATUS none", Box::new(|| ErrorKind::BadStatus { status: None, body: None })),
+            ];
+            for (label, mk) in &kinds {
+                n += 1;
+                let r = std::panic::catch_unwind(std::panic::AssertUnwindSafe(|| -> Result<(), Value> {
+                    let err = ErrorBody::Standard { kind: mk(), message: "msg".to_owned() }.into_error(http::StatusCode::BAD_REQUEST);
+                    let want = format!("{err:?}");
+                    let h = err.try_into_http_response::<Vec<u8>>().map_err(|e| json!({"stage": "encode", "error": e.to_string()}))?;
+                    let m1 = format!("{} {}", h.status(), String::from_utf8_lossy(h.body()));
+                    let back = ruma_client_api::Error::from_http_response(h);
+                    if format!("{back:?}") != want {
+                        return Err(json!({"endpoint": "client error response", "kind": label, "stage": "compare", "sent": want, "decoded": format!("{back:?}"), "message": m1}));
+                    }
+                    Ok(())
+                }));
+                match r {
+                    Err(_) => fail(&mut f_panic, json!({"endpoint": "client error response", "kind": label, "observed": "panic"})),
+                    Ok(Err(e)) => fail(&mut f_res, json!({"failure": e})),
+                    Ok(Ok(())) => {}
+                }
+            }
+        }
         // client sync: a response whose only update is in one kind of room
         {
             use ruma_client_api::sync::sync_events::v3::{InvitedRoom, JoinedRoom, KnockedRoom, LeftRoom, Response};
@@ -566,7 +600,7 @@ pub fn run(_tier: &str) -> Report {
         }
     }
     Report {
-        bound: format!("3 synthetic endpoints (path x2, query incl. optional and multi-valued, header, JSON body incl. optional field, newtype body, raw body, status override 302): 11^3 (path, query, body) triples x 3 version sets x 3 optional-field shapes and the other endpoints' value lists; real endpoints: the public-rooms requests (client v3 POST, federation v1 POST and GET), push gateway notify, client get_threads and search_events, client sync v3 responses: {n} round trips"),
+        bound: format!("3 synthetic endpoints (path x2, query incl. optional and multi-valued, header, JSON body incl. optional field, newtype body, raw body, status override 302): 11^3 (path, query, body) triples x 3 version sets x 3 optional-field shapes and the other endpoints' value lists; real endpoints: the public-rooms requests (client v3 POST, federation v1 POST and GET), push gateway notify, client get_threads and search_events, client sync v3 responses, client error responses (8 kinds): {n} round trips"),
         cases: n,
         obligations: vec![
             ("requests_survive_the_http_wire_format_and_reencode_identically", n, f_req),
